@@ -145,6 +145,88 @@ theorem sigOpCount_eq (s : Bytes) : sigOpCount s = Spec.BlockCheck.sigOps s := b
 theorem legacySigOpCount_eq (t : Tx) : legacySigOpCount t = Spec.BlockCheck.txSigOps t := by
   simp [legacySigOpCount, Spec.BlockCheck.txSigOps, sigOpCount_eq]
 
+/-! ### the rules restated over the Python-mirroring helpers of Basic/Tx (proof-side only)
+
+  `Spec.BlockCheck` characterises a coinbase and the null outpoint on the fields.  The model calls
+  `Tx.isCoinbase` / `OutPoint.isNull` (mirrors of `is_coinbase()` / `is_null()`).  The loops are proved
+  against the `…B` restatements below; `validTx_iff` / `validBlock_iff` show they are the Spec's. -/
+
+theorem isNull_iff (o : OutPoint) : o.isNull = true ↔ Spec.BlockCheck.NullOutPoint o := by
+  unfold OutPoint.isNull Spec.BlockCheck.NullOutPoint Spec.Merkle.zero32
+  simp
+
+theorem isCoinbase_iff (t : Tx) : t.isCoinbase = true ↔ Spec.BlockCheck.IsCoinbase t := by
+  unfold Tx.isCoinbase Spec.BlockCheck.IsCoinbase
+  rcases t.vin with _ | ⟨i, _ | ⟨j, r⟩⟩
+  · simp
+  · exact isNull_iff _
+  · simp
+
+def ValidTxB (p : ChainParams) (t : Tx) : Prop :=
+  t.vin ≠ [] ∧ t.vout ≠ [] ∧
+  (Spec.Wire.txLegacy t).length ≤ maxBlockSize ∧
+  (∀ o ∈ t.vout, Spec.BlockCheck.moneyRange p o.nValue) ∧
+  (∀ k ∈ List.range (t.vout.length + 1), Spec.BlockCheck.moneyRange p ((t.vout.take k).map (·.nValue)).sum) ∧
+  (t.vin.map (fun i => (i.prevout.hash, i.prevout.n))).Nodup ∧
+  (if t.isCoinbase then ∀ i ∈ t.vin, 2 ≤ i.scriptSig.length ∧ i.scriptSig.length ≤ 100
+   else ∀ i ∈ t.vin, i.prevout.isNull = false)
+
+instance (p : ChainParams) (t : Tx) : Decidable (ValidTxB p t) := by
+  unfold ValidTxB; exact inferInstance
+
+theorem validTx_iff (p : ChainParams) (t : Tx) : Spec.BlockCheck.ValidTx p t ↔ ValidTxB p t := by
+  unfold Spec.BlockCheck.ValidTx ValidTxB
+  have hnull : ∀ i : TxIn, (¬ Spec.BlockCheck.NullOutPoint i.prevout) ↔ i.prevout.isNull = false := by
+    intro i; rw [← isNull_iff]; simp
+  by_cases hc : t.isCoinbase = true
+  · have hc' := (isCoinbase_iff t).mp hc
+    simp only [hc, hc', if_true]
+  · have hc' : ¬ Spec.BlockCheck.IsCoinbase t := fun h => hc ((isCoinbase_iff t).mpr h)
+    simp only [hc, hc', if_false, hnull, Bool.false_eq_true]
+
+def CoinbaseFirstOnlyB : List Tx → Prop
+  | [] => False
+  | cb :: rest => cb.isCoinbase = true ∧ ∀ t ∈ rest, t.isCoinbase = false
+
+instance (vtx : List Tx) : Decidable (CoinbaseFirstOnlyB vtx) := by
+  unfold CoinbaseFirstOnlyB; split <;> exact inferInstance
+
+theorem coinbaseFirstOnly_iff (vtx : List Tx) :
+    Spec.BlockCheck.CoinbaseFirstOnly vtx ↔ CoinbaseFirstOnlyB vtx := by
+  cases vtx with
+  | nil => simp [Spec.BlockCheck.CoinbaseFirstOnly, CoinbaseFirstOnlyB]
+  | cons cb rest =>
+    simp only [Spec.BlockCheck.CoinbaseFirstOnly, CoinbaseFirstOnlyB, ← isCoinbase_iff]
+    simp
+
+def ValidBlockB (p : ChainParams) (now : Int) (fPoW fMerkle : Bool) (b : Block) : Prop :=
+  (fPoW = true → Spec.powValid p.powLimit (hash256 (Spec.Wire.header b.hdr)) b.hdr.nBits) ∧
+  (b.hdr.nTime : Int) ≤ now + 7200 ∧
+  b.vtx ≠ [] ∧
+  (Spec.Merkle.blockStripped b).length ≤ maxBlockSize ∧
+  Spec.Merkle.blockWeight b ≤ maxBlockWeight ∧
+  CoinbaseFirstOnlyB b.vtx ∧
+  (∀ t ∈ b.vtx, ValidTxB p t) ∧
+  (b.vtx.map Spec.Merkle.txid).Nodup ∧
+  (b.vtx.map Spec.BlockCheck.txSigOps).sum ≤ maxBlockSigops ∧
+  (fMerkle = true →
+    Spec.Merkle.merkleRoot b.vtx = some b.hdr.hashMerkleRoot ∧
+    ((∃ t ∈ b.vtx, t.hasWitness = true) → Spec.BlockCheck.CommitmentOk b.vtx))
+
+instance (p : ChainParams) (now : Int) (f g : Bool) (b : Block) : Decidable (ValidBlockB p now f g b) := by
+  unfold ValidBlockB; exact inferInstance
+
+theorem validBlock_iff (p : ChainParams) (now : Int) (f g : Bool) (b : Block) :
+    Spec.BlockCheck.ValidBlock p now f g b ↔ ValidBlockB p now f g b := by
+  unfold Spec.BlockCheck.ValidBlock ValidBlockB
+  simp only [coinbaseFirstOnly_iff, validTx_iff]
+
+theorem ite_iff {α : Type} {P Q : Prop} [Decidable P] [Decidable Q] (h : P ↔ Q) (a b : α) :
+    (if P then a else b) = (if Q then a else b) := by
+  by_cases hp : P
+  · rw [if_pos hp, if_pos (h.mp hp)]
+  · rw [if_neg hp, if_neg (fun hq => hp (h.mpr hq))]
+
 /-! ### B. CheckTransaction -/
 
 /-- an outcome that is acceptance or a validation error (no other exception) -/
@@ -359,22 +441,22 @@ theorem decide_verdict {r : Res Unit} {P : Prop} [Decidable P]
   · simp [h, hp, IsVerdict]
 
 /-- `CheckTransaction` decides exactly `Spec.ValidTx`, and rejects with a validation error only -/
-theorem checkTx_decide (p : ChainParams) (t : Tx) (h : TxRange t) :
-    checkTx p t = if Spec.BlockCheck.ValidTx p t then .ok () else .error .validation := by
+theorem checkTx_decideB (p : ChainParams) (t : Tx) (h : TxRange t) :
+    checkTx p t = if ValidTxB p t then .ok () else .error .validation := by
   have hwf : ∀ i ∈ t.vin, Spec.Wire.WFOutPoint i.prevout := fun i hi => (h.2.2.2.2.1 i hi).1
   unfold checkTx
   by_cases hv : t.vin.length = 0
-  · have : ¬ Spec.BlockCheck.ValidTx p t := fun hh => hh.1 (List.eq_nil_of_length_eq_zero hv)
+  · have : ¬ ValidTxB p t := fun hh => hh.1 (List.eq_nil_of_length_eq_zero hv)
     simp [hv, this, reject]
   by_cases ho : t.vout.length = 0
-  · have : ¬ Spec.BlockCheck.ValidTx p t := fun hh => hh.2.1 (List.eq_nil_of_length_eq_zero ho)
+  · have : ¬ ValidTxB p t := fun hh => hh.2.1 (List.eq_nil_of_length_eq_zero ho)
     simp [hv, ho, this, reject]
   have hvin : t.vin ≠ [] := fun hh => hv (by simp [hh])
   have hvout : t.vout ≠ [] := fun hh => ho (by simp [hh])
   simp only [hv, ho, if_false, MerkleProofs.ctorValid_of_range t h, Bool.not_true, Bool.false_eq_true,
     serTx_strip t h]
   by_cases hsz : (Spec.Wire.txLegacy t).length > maxBlockSize
-  · have : ¬ Spec.BlockCheck.ValidTx p t := fun hh => by have := hh.2.2.1; omega
+  · have : ¬ ValidTxB p t := fun hh => by have := hh.2.2.1; omega
     simp [hsz, this, reject]
   simp only [hsz, if_false]
   -- output values
@@ -402,7 +484,7 @@ theorem checkTx_decide (p : ChainParams) (t : Tx) (h : TxRange t) :
   by_cases hP : (∀ o ∈ t.vout, Spec.BlockCheck.moneyRange p o.nValue) ∧
       (∀ k, 1 ≤ k → k ≤ t.vout.length → Spec.BlockCheck.moneyRange p (0 + (vals (t.vout.take k)).sum))
   swap
-  · have : ¬ Spec.BlockCheck.ValidTx p t := fun hh => hP (hvals.mpr ⟨hh.2.2.2.1, hh.2.2.2.2.1⟩)
+  · have : ¬ ValidTxB p t := fun hh => hP (hvals.mpr ⟨hh.2.2.2.1, hh.2.2.2.2.1⟩)
     rw [if_neg hP, if_neg this]
   rw [if_pos hP]
   dsimp only
@@ -413,7 +495,7 @@ theorem checkTx_decide (p : ChainParams) (t : Tx) (h : TxRange t) :
   rw [hdup]
   by_cases hN : (t.vin.map hn).Nodup
   swap
-  · have : ¬ Spec.BlockCheck.ValidTx p t := fun hh => hN hh.2.2.2.2.2.1
+  · have : ¬ ValidTxB p t := fun hh => hN hh.2.2.2.2.2.1
     rw [if_neg hN, if_neg this]
   rw [if_pos hN]
   dsimp only
@@ -428,12 +510,12 @@ theorem checkTx_decide (p : ChainParams) (t : Tx) (h : TxRange t) :
     obtain ⟨i, hi⟩ := hone
     simp only [hi, List.getElem?_cons_zero]
     by_cases hlen : 2 ≤ i.scriptSig.length ∧ i.scriptSig.length ≤ 100
-    · have : Spec.BlockCheck.ValidTx p t := by
+    · have : ValidTxB p t := by
         refine ⟨hvin, hvout, by omega, hP'.1, hP'.2, hN, ?_⟩
         simp only [hcb, if_true, hi, List.mem_singleton, forall_eq]
         exact hlen
       simp [hlen, this]
-    · have : ¬ Spec.BlockCheck.ValidTx p t := fun hh => by
+    · have : ¬ ValidTxB p t := fun hh => by
         have h7 := hh.2.2.2.2.2.2
         simp only [hcb, if_true, hi, List.mem_singleton, forall_eq] at h7
         exact hlen h7
@@ -442,12 +524,12 @@ theorem checkTx_decide (p : ChainParams) (t : Tx) (h : TxRange t) :
     simp only [hcb', Bool.false_eq_true, if_false]
     rw [verdict_decide (nullLoop_verdict t.vin) (nullLoop_iff t.vin)]
     by_cases hnull : ∀ i ∈ t.vin, i.prevout.isNull = false
-    · have : Spec.BlockCheck.ValidTx p t := by
+    · have : ValidTxB p t := by
         refine ⟨hvin, hvout, by omega, hP'.1, hP'.2, hN, ?_⟩
         simp only [hcb', Bool.false_eq_true, if_false]
         exact hnull
       rw [if_pos hnull, if_pos this]
-    · have : ¬ Spec.BlockCheck.ValidTx p t := fun hh => by
+    · have : ¬ ValidTxB p t := fun hh => by
         have h7 := hh.2.2.2.2.2.2
         simp only [hcb', Bool.false_eq_true, if_false] at h7
         exact hnull h7
@@ -633,7 +715,7 @@ theorem checkCommitment_decide (cb : Tx) (rest : List Tx) (wtree : List Bytes) (
 /-- what the loop, started at position `i` with txid set `seen` and count `sig`, accepts -/
 def LoopOk (p : ChainParams) (txs : List Tx) (i : Nat) (seen : List Bytes) (sig : Nat) : Prop :=
   (∀ k t, txs[k]? = some t → 0 < i + k → t.isCoinbase = false) ∧
-  (∀ t ∈ txs, Spec.BlockCheck.ValidTx p t) ∧
+  (∀ t ∈ txs, ValidTxB p t) ∧
   (txs.map Spec.Merkle.txid).Nodup ∧
   (∀ t ∈ txs, Spec.Merkle.txid t ∉ seen) ∧
   sig + (txs.map Spec.BlockCheck.txSigOps).sum ≤ maxBlockSigops
@@ -664,8 +746,8 @@ theorem txLoop_spec (p : ChainParams) : ∀ (txs : List Tx) (i : Nat) (seen : Li
         rw [this] at hcb; exact absurd hcb.2 (by simp)
     · have hcb' : (decide (i > 0) && t.isCoinbase) = false := by simpa using hcb
       simp only [hcb', Bool.false_eq_true, if_false]
-      rw [checkTx_decide p t hrt]
-      by_cases hvt : Spec.BlockCheck.ValidTx p t
+      rw [checkTx_decideB p t hrt]
+      by_cases hvt : ValidTxB p t
       swap
       · rw [if_neg hvt]
         refine ⟨Or.inr rfl, ?_⟩
@@ -788,11 +870,11 @@ theorem lastOf_ok_ne_nil {tree : List Bytes} {r : Bytes} (h : lastOf tree = .ok 
   | nil => simp [lastOf] at h
   | cons _ _ => simp
 
-theorem checkBlock_decide (p : ChainParams) (hlim : p.powLimit < 2 ^ 256)
+theorem checkBlock_decideB (p : ChainParams) (hlim : p.powLimit < 2 ^ 256)
     (hH : ∀ x : Bytes, (hash256 x).length = 32) (b : Block) (hb : BlockRange b)
     (fPoW fMerkle : Bool) (now : Int) :
     checkBlock p b fPoW fMerkle now =
-      if Spec.BlockCheck.ValidBlock p now fPoW fMerkle b then .ok () else .error .validation := by
+      if ValidBlockB p now fPoW fMerkle b then .ok () else .error .validation := by
   have hwfh := hb.1
   have hrt := hb.2.2
   unfold checkBlock checkBlockWith
@@ -801,22 +883,22 @@ theorem checkBlock_decide (p : ChainParams) (hlim : p.powLimit < 2 ^ 256)
   rw [checkBlockHeader_decide p hlim hH b.hdr hwfh fPoW now]
   by_cases hhdr : Spec.BlockCheck.ValidHeader p now fPoW b.hdr
   swap
-  · have : ¬ Spec.BlockCheck.ValidBlock p now fPoW fMerkle b := fun hv => hhdr ⟨hv.1, hv.2.1⟩
+  · have : ¬ ValidBlockB p now fPoW fMerkle b := fun hv => hhdr ⟨hv.1, hv.2.1⟩
     rw [if_neg hhdr, if_neg this]
   rw [if_pos hhdr]; dsimp only
   by_cases hlen : b.vtx.length = 0
-  · have : ¬ Spec.BlockCheck.ValidBlock p now fPoW fMerkle b :=
+  · have : ¬ ValidBlockB p now fPoW fMerkle b :=
       fun hv => hv.2.2.1 (List.eq_nil_of_length_eq_zero hlen)
     rw [if_pos hlen, if_neg this]; rfl
   rw [if_neg hlen, serBlock_false b hb]; dsimp only
   have hne : b.vtx ≠ [] := fun h => hlen (by simp [h])
   by_cases hsz : (Spec.Wire.header b.hdr ++ Spec.Wire.vec Spec.Wire.txLegacy b.vtx).length > maxBlockSize
-  · have : ¬ Spec.BlockCheck.ValidBlock p now fPoW fMerkle b := fun hv => by
+  · have : ¬ ValidBlockB p now fPoW fMerkle b := fun hv => by
       have := hv.2.2.2.1; unfold Spec.Merkle.blockStripped at this; omega
     rw [if_pos hsz, if_neg this]; rfl
   rw [if_neg hsz, MerkleProofs.getWeight_ok b hb]; dsimp only
   by_cases hwt : Spec.Merkle.blockWeight b > maxBlockWeight
-  · have : ¬ Spec.BlockCheck.ValidBlock p now fPoW fMerkle b := fun hv => by
+  · have : ¬ ValidBlockB p now fPoW fMerkle b := fun hv => by
       have := hv.2.2.2.2.1; omega
     rw [if_pos hwt, if_neg this]; rfl
   rw [if_neg hwt]
@@ -827,7 +909,7 @@ theorem checkBlock_decide (p : ChainParams) (hlim : p.powLimit < 2 ^ 256)
   simp only [hvtx, List.getElem?_cons_zero]
   by_cases hcb : cb.isCoinbase = true
   swap
-  · have : ¬ Spec.BlockCheck.ValidBlock p now fPoW fMerkle b := fun hv => by
+  · have : ¬ ValidBlockB p now fPoW fMerkle b := fun hv => by
       have := hv.2.2.2.2.2.1; rw [hvtx] at this; exact hcb this.1
     have hcb' : cb.isCoinbase = false := by simpa using hcb
     simp only [hcb', Bool.not_false, if_true]
@@ -841,7 +923,7 @@ theorem checkBlock_decide (p : ChainParams) (hlim : p.powLimit < 2 ^ 256)
       rcases hlv with h | h
       · exact absurd (hli.mp h) hloop
       · exact h
-    have : ¬ Spec.BlockCheck.ValidBlock p now fPoW fMerkle b := fun hv => by
+    have : ¬ ValidBlockB p now fPoW fMerkle b := fun hv => by
       apply hloop
       obtain ⟨_, _, _, _, _, h6, h7, h8, h9, _⟩ := hv
       rw [hvtx] at h6 h7 h8 h9
@@ -855,7 +937,7 @@ theorem checkBlock_decide (p : ChainParams) (hlim : p.powLimit < 2 ^ 256)
     rw [hrej, if_neg this]
   rw [hli.mpr hloop]; dsimp only
   obtain ⟨hl1, hl2, hl3, _, hl5⟩ := hloop
-  have hcbf : Spec.BlockCheck.CoinbaseFirstOnly b.vtx := by
+  have hcbf : CoinbaseFirstOnlyB b.vtx := by
     rw [hvtx]
     refine ⟨hcb, ?_⟩
     intro t ht
@@ -864,7 +946,7 @@ theorem checkBlock_decide (p : ChainParams) (hlim : p.powLimit < 2 ^ 256)
   have hbase : (fPoW = true → Spec.powValid p.powLimit (hash256 (Spec.Wire.header b.hdr)) b.hdr.nBits) ∧
       (b.hdr.nTime : Int) ≤ now + 7200 ∧ b.vtx ≠ [] ∧
       (Spec.Merkle.blockStripped b).length ≤ maxBlockSize ∧ Spec.Merkle.blockWeight b ≤ maxBlockWeight ∧
-      Spec.BlockCheck.CoinbaseFirstOnly b.vtx ∧ (∀ t ∈ b.vtx, Spec.BlockCheck.ValidTx p t) ∧
+      CoinbaseFirstOnlyB b.vtx ∧ (∀ t ∈ b.vtx, ValidTxB p t) ∧
       (b.vtx.map Spec.Merkle.txid).Nodup ∧ (b.vtx.map Spec.BlockCheck.txSigOps).sum ≤ maxBlockSigops := by
     refine ⟨hhdr.1, hhdr.2, hne, by unfold Spec.Merkle.blockStripped; omega, by omega, hcbf, ?_, ?_, ?_⟩
     · rw [hvtx]; exact hl2
@@ -873,7 +955,7 @@ theorem checkBlock_decide (p : ChainParams) (hlim : p.powLimit < 2 ^ 256)
   obtain ⟨b1, b2, b3, b4, b5, b6, b7, b8, b9⟩ := hbase
   cases fMerkle with
   | false =>
-    have : Spec.BlockCheck.ValidBlock p now fPoW false b :=
+    have : ValidBlockB p now fPoW false b :=
       ⟨b1, b2, b3, b4, b5, b6, b7, b8, b9, fun h => by cases h⟩
     simp only [Bool.false_eq_true, if_false]
     rw [if_pos this]
@@ -883,7 +965,7 @@ theorem checkBlock_decide (p : ChainParams) (hlim : p.powLimit < 2 ^ 256)
     obtain ⟨_, r, _, _, hcm, hsm⟩ := MerkleProofs.calcMerkleRoot_spec (cb :: rest) (by simp) hrt''
     rw [hcm]; dsimp only
     by_cases hroot : b.hdr.hashMerkleRoot ≠ r
-    · have : ¬ Spec.BlockCheck.ValidBlock p now fPoW true b := fun hv => by
+    · have : ¬ ValidBlockB p now fPoW true b := fun hv => by
         have := (hv.2.2.2.2.2.2.2.2.2 rfl).1
         rw [hvtx, hsm] at this
         exact hroot (Option.some.inj this).symm
@@ -895,7 +977,7 @@ theorem checkBlock_decide (p : ChainParams) (hlim : p.powLimit < 2 ^ 256)
     cases hany : (cb :: rest).any (·.hasWitness) with
     | false =>
       rw [hnone hany]
-      have : Spec.BlockCheck.ValidBlock p now fPoW true b := by
+      have : ValidBlockB p now fPoW true b := by
         refine ⟨b1, b2, b3, b4, b5, b6, b7, b8, b9, fun _ => ⟨hroot', ?_⟩⟩
         rintro ⟨t, ht, hw⟩
         rw [hvtx] at ht
@@ -911,13 +993,31 @@ theorem checkBlock_decide (p : ChainParams) (hlim : p.powLimit < 2 ^ 256)
       have hex : ∃ t ∈ b.vtx, t.hasWitness = true := by
         rw [hvtx]; exact List.any_eq_true.mp hany
       by_cases hcm' : Spec.BlockCheck.CommitmentOk (cb :: rest)
-      · have : Spec.BlockCheck.ValidBlock p now fPoW true b :=
+      · have : ValidBlockB p now fPoW true b :=
           ⟨b1, b2, b3, b4, b5, b6, b7, b8, b9, fun _ => ⟨hroot', fun _ => by rw [hvtx]; exact hcm'⟩⟩
         rw [if_pos hcm', if_pos this]
-      · have : ¬ Spec.BlockCheck.ValidBlock p now fPoW true b := fun hv => by
+      · have : ¬ ValidBlockB p now fPoW true b := fun hv => by
           have := (hv.2.2.2.2.2.2.2.2.2 rfl).2 hex
           rw [hvtx] at this
           exact hcm' this
         rw [if_neg hcm', if_neg this]
+
+/-! ### the same two decisions against the Spec's own formulation -/
+
+theorem checkTx_decide (p : ChainParams) (t : Tx) (h : TxRange t) :
+    checkTx p t = if Spec.BlockCheck.ValidTx p t then .ok () else .error .validation := by
+  rw [checkTx_decideB p t h]
+  exact (ite_iff (validTx_iff p t) _ _).symm
+
+theorem checkBlock_decide (p : ChainParams) (hlim : p.powLimit < 2 ^ 256)
+    (hH : ∀ x : Bytes, (hash256 x).length = 32) (b : Block) (hb : BlockRange b)
+    (fPoW fMerkle : Bool) (now : Int) :
+    checkBlock p b fPoW fMerkle now =
+      if Spec.BlockCheck.ValidBlock p now fPoW fMerkle b then .ok () else .error .validation := by
+  have h := checkBlock_decideB p hlim hH b hb fPoW fMerkle now
+  rw [h]
+  by_cases hv : ValidBlockB p now fPoW fMerkle b
+  · rw [if_pos hv, if_pos ((validBlock_iff p now fPoW fMerkle b).mpr hv)]
+  · rw [if_neg hv, if_neg (fun hq => hv ((validBlock_iff p now fPoW fMerkle b).mp hq))]
 
 end BtcVerif.BlockCheckProofs
